@@ -1003,8 +1003,16 @@ impl<'a, 'b> Gen<'a, 'b> {
 }
 
 pub fn gen_program(tape: &[u8], p: &Profile) -> (BlockStmt, Option<&'static str>) {
+    let (prog, fault, _) = gen_program_used(tape, p);
+    (prog, fault)
+}
+
+/// also returns how many tape bytes the generator consumed (the rest may drive transformations / layouts)
+pub fn gen_program_used(tape: &[u8], p: &Profile) -> (BlockStmt, Option<&'static str>, usize) {
     let mut t = Tape::new(tape);
     let mut g = Gen::new(&mut t, p.clone());
     let prog = g.program();
-    (prog, g.fault_injected)
+    let fault = g.fault_injected;
+    let used = t.used();
+    (prog, fault, used)
 }
